@@ -59,7 +59,7 @@ func (g *tryGen) body(depth int) MalType {
 	case 4:
 		return call1("f-throw", g.thrown()) // via a called function
 	case 5:
-		switch r.intn(5) { // via a builtin that calls back into lisp
+		switch r.intn(6) { // via a builtin that calls back into lisp
 		case 0:
 			return call1("apply", sy("f-throw"), vc(g.thrown()))
 		case 1:
@@ -68,6 +68,11 @@ func (g *tryGen) body(depth int) MalType {
 			return call1("update", HashMap{Val: map[string]MalType{kw("a"): 1}}, kw("a"), ls(sy("fn"), vc(sy("x")), call1("throw", g.thrown())))
 		case 3:
 			return call1("map", sy("f-throw"), call1("list", g.thrown()))
+		case 4:
+			// the update function of a swap! changes the atom itself and THEN throws: the throw is the outcome of the
+			// swap!, whatever happened to the atom meanwhile
+			return ls(sy("let"), vc(sy("sa"), call1("atom", 0)),
+				call1("swap!", sy("sa"), ls(sy("fn"), vc(sy("x")), call1("reset!", sy("sa"), call1("+", sy("x"), 5)), call1("trace!", kw("in-swap")), call1("throw", g.thrown()))))
 		}
 		return call1("map", ls(sy("fn"), vc(sy("x")), call1("throw", sy("x"))), vc(g.r.intn(3), 9)) // via a builtin callback
 	case 11:
@@ -379,7 +384,17 @@ func (g *qqGen) macroProgram() (defs []MalType, callForm MalType) {
 		ls(sy("def"), sy("x"), 7), ls(sy("def"), sy("ys"), call1("list", 1, 2)), ls(sy("def"), sy("vs"), vc(3, 4)),
 		ls(sy("def"), sy("f1"), ls(sy("fn"), vc(sy("a")), call1("trace!", call1("+", sy("a"), 1)))),
 	}
-	switch r.intn(14) {
+	switch r.intn(16) {
+	case 14, 15:
+		// an expansion that depends on state read AT EXPANSION TIME (an atom), from ONE call site inside a function that is
+		// called several times with the state changed in between: every evaluation of the call expands afresh, and the
+		// expander's own effect (a counter) happens once per evaluation
+		defs = append(defs, ls(sy("def"), sy("lvl"), call1("atom", 1+r.intn(3))), ls(sy("def"), sy("runs"), call1("atom", 0)),
+			ls(sy("defmacro"), sy("m"), ls(sy("fn"), vc(sy("a")), call1("swap!", sy("runs"), sy("inc")),
+				call1("list", call1("quote", sy("*")), sy("a"), call1("deref", sy("lvl"))))),
+			ls(sy("def"), sy("g"), ls(sy("fn"), vc(sy("v")), ls(sy("m"), sy("v")))))
+		callForm = call1("list", ls(sy("g"), 10), ls(sy("do"), call1("reset!", sy("lvl"), 5+r.intn(3)), ls(sy("g"), 10)),
+			ls(sy("do"), call1("swap!", sy("lvl"), sy("inc")), ls(sy("g"), 10)), ls(sy("m"), 2), call1("deref", sy("runs")))
 	case 9: // expansion is a VECTOR literal with non-constant elements: it still has to be evaluated
 		defs = append(defs, ls(sy("defmacro"), sy("m"), ls(sy("fn"), vc(sy("a"), sy("b")),
 			call1("quasiquote", vc(call1("unquote", sy("a")), call1("unquote", sy("b")), sy("x"))))))
